@@ -51,7 +51,7 @@ def collect(case, res, name, viols):
             viols.append(C.V("output-missing", f"{name}: output file {e} was not created"))
             continue
         except fmt.FormatError as e:
-            viols.append(C.V("desync", f"{name}: {d['paths']}: {e}"))
+            viols.append(C.V("unparseable-output", f"{name}: {d['paths']}: {e}"))
             continue
         if r2 is None:
             continue
@@ -169,6 +169,8 @@ def evaluate(case, ctx):
     shadow_case["outs"] = souts
     v0 = []
     shadow = collect(shadow_case, sh, "shadow", v0)
+    if any(v["clause"] == "unparseable-output" for v in v0):
+        raise engine.Discard("serial-output-malformed")  # per-read defect, not this property
     if v0:
         return v0
     if len(shadow) != len(case["records"]):
@@ -180,6 +182,8 @@ def evaluate(case, ctx):
     if ref.exit != 0:
         raise engine.Discard("reference-run-failed")
     viols = judge(case, mdl, shadow, ref, "serial")
+    if any(v["clause"] == "unparseable-output" for v in viols):
+        raise engine.Discard("serial-output-malformed")
     par = C.run_parallel(case, ctx, files)
     hv = C.hang_violations(par, "par")
     if hv:
